@@ -20,6 +20,7 @@ import (
 	"github.com/nspcc-dev/neofs-node/pkg/local_object_storage/blobstor/fstree"
 	meta "github.com/nspcc-dev/neofs-node/pkg/local_object_storage/metabase"
 	"github.com/nspcc-dev/neofs-node/pkg/local_object_storage/shard"
+	"github.com/nspcc-dev/neofs-node/pkg/local_object_storage/shard/mode"
 	"github.com/nspcc-dev/neofs-node/pkg/local_object_storage/writecache"
 	"github.com/nspcc-dev/neofs-sdk-go/checksum"
 	cid "github.com/nspcc-dev/neofs-sdk-go/container/id"
@@ -93,7 +94,12 @@ type envOpts struct {
 	noInit   bool
 }
 
-func buildShard(dir string, o envOpts) (*shardEnv, error) {
+func shardOptions(dir string, o envOpts) []shard.Option {
+	opts, _, _ := shardOptionsEx(dir, o)
+	return opts
+}
+
+func shardOptionsEx(dir string, o envOpts) ([]shard.Option, *fstree.FSTree, *epochState) {
 	fst := fstree.New(fstree.WithPath(filepath.Join(dir, "fstree")), fstree.WithNoSync(true))
 	var st common.Storage = fst
 	if o.blob != nil {
@@ -123,6 +129,11 @@ func buildShard(dir string, o envOpts) (*shardEnv, error) {
 		shard.WithGCRemoverSleepInterval(time.Hour), // GC passes are driven explicitly through the hook
 	}
 	opts = append(opts, o.extra...)
+	return opts, fst, ep
+}
+
+func buildShard(dir string, o envOpts) (*shardEnv, error) {
+	opts, fst, ep := shardOptionsEx(dir, o)
 	sh := shard.New(opts...)
 	env := &shardEnv{dir: dir, sh: sh, fst: fst, epoch: ep, wc: o.wc}
 	if o.noInit {
@@ -213,6 +224,13 @@ func main() {
 		consts()
 	case "c46":
 		c46Main(os.Args[2:])
+	case "c47":
+		c47Main(os.Args[2:])
+	case "c14":
+		c14Main(os.Args[2:])
+	case "c43probe":
+		c43Probe(false)
+		c43Probe(true)
 	default:
 		fatal("unknown command %q", os.Args[1])
 	}
@@ -220,7 +238,11 @@ func main() {
 
 func consts() {
 	emit(map[string]any{
-		"dump_magic": bytesToInts(shard.VerifDumpMagic()),
+		"dump_magic":       bytesToInts(shard.VerifDumpMagic()),
+		"mode_read_only":   uint32(mode.ReadOnly),
+		"mode_degraded":    uint32(mode.Degraded),
+		"mode_read_write":  uint32(mode.ReadWrite),
+		"mode_degraded_ro": uint32(mode.DegradedReadOnly),
 	})
 }
 
